@@ -134,10 +134,14 @@ func OpenDbStor(store *stor.Stor, mode stor.Mode, check bool) (db *Database, err
 // lastStateOff returns the offset of the state that ends at size.
 // The shutdown marker is allocated separately from the final state,
 // so when it does not fit in the state's chunk it starts the next chunk,
-// leaving a gap of less than tailSize after the state.
+// leaving less than tailSize unused (zero) bytes at the end of the state's chunk.
 func lastStateOff(store *stor.Stor, size uint64) uint64 {
 	off := size - uint64(stateLen)
-	for gap := uint64(0); gap < tailSize && gap <= off; gap++ {
+	for gap := uint64(1); gap < tailSize && gap <= off; gap++ {
+		pad := store.Data(size - gap)
+		if uint64(len(pad)) != gap || pad[0] != 0 {
+			break // not unused space at the end of a chunk
+		}
 		if _, _, t := readState(store, off-gap); t != 0 {
 			return off - gap
 		}
